@@ -324,6 +324,10 @@ pub fn analyze_font_usage(buf: &Buffer) -> Vec<usize> {
     }
     let mut v: Vec<usize> = hash_set.into_iter().collect();
     v.sort_unstable();
+    if v.is_empty() {
+        // a buffer without cells uses no font page; the writers index the first entry: report the default page
+        v.push(0);
+    }
     v
 }
 
